@@ -44,6 +44,8 @@ type c01RunParams struct {
 	// Push: the run pushes to a (loopback) push gateway; TeardownFail: its scenario-level cleanup fails
 	Push         bool `json:"push,omitempty"`
 	TeardownFail bool `json:"teardown_fail,omitempty"`
+	// SlowRefresh: the gateway takes 1.5 s to answer the periodic push that falls 5 s into the run, and the run ends meanwhile
+	SlowRefresh bool `json:"slow_refresh,omitempty"`
 }
 
 var c01Outcomes = []metrics.ResultType{metrics.SuccessResult, metrics.FailedResult, metrics.DroppedResult}
@@ -162,6 +164,16 @@ func init() {
 				cse := core.MkCase("C01", "run", 6000+i, seed, p)
 				cse.Race = i%2 == 0
 				cse.Solo = true
+				cse.TimeoutMS = 90000
+				cs = append(cs, cse)
+			}
+			// a run that ends while its periodic metrics refresh (every 5 s) is still being answered by a slow gateway:
+			// the finished run's counts still reach the gateway
+			{
+				spec := engine.Spec{Mode: "users", Concurrency: 2, MaxDurationMS: 5600, IgnoreDropped: true}
+				p := c01RunParams{Spec: spec, FailEvery: 3, Body: "sleep", Reps: 1, Push: true, SlowRefresh: true}
+				p.Desc = "mode=users c=2 dur=5600ms failEvery=3 body=sleep push=true slow periodic refresh at 5 s"
+				cse := core.MkCase("C01", "run", 6500, seed, p)
 				cse.TimeoutMS = 90000
 				cs = append(cs, cse)
 			}
@@ -540,6 +552,10 @@ func c01RunOnce(c *core.Case, o *core.Outcome, p c01RunParams, inst *metrics.Met
 	if p.Push {
 		gw = engine.NewGateway(200)
 		defer gw.Close()
+		if p.SlowRefresh {
+			// pushes: after setup, the 5 s refresh (slow), the final one
+			gw.DelayNth, gw.DelayFor = 2, 1500*time.Millisecond
+		}
 		p.Spec.PushGateway = gw.URL()
 	}
 	r := engine.Execute(ctx, p.Spec, l, c01Scenario(&p, &passed, &failed, c.Rng("salt").Uint64()), nil, inst)
